@@ -735,23 +735,23 @@ def fn_file(case, ctx):
     fmt = case["fmt"]
     nf = normal_form(case)
     nk = sum(1 for k in ("E", "F", "C") if case[k])
-    ctx.label("file:fmt=" + fmt, "file:kind=" + case["kind"], "file:via=" + case["via"],
+    ctx.label("fmt=" + fmt, "file:kind=" + case["kind"], "file:via=" + case["via"],
               f"complete_edges={case['complete_edges']}", f"complete_faces={case['complete_faces']}")
     if case["F"] and case["C"]:
-        ctx.label("file:faces-and-cells")
+        ctx.label("faces-and-cells")
         if fmt == "off":
             kinds = [k for k, _ in case["order"] if k in "fc"]
             blocks = sum(1 for a, b in zip(kinds, kinds[1:]) if a != b)
-            ctx.label("file:off-records=" + ("interleaved" if blocks > 1 else "faces-first" if kinds[0] == "f" else "cells-first"))
+            ctx.label("off-records=" + ("interleaved" if blocks > 1 else "faces-first" if kinds[0] == "f" else "cells-first"))
     if case["E"] and case["F"]:
-        ctx.label("file:declared-edges-and-faces")
+        ctx.label("declared-edges-and-faces")
     extra = sorted(set(len(x) for x in case["vextra"]))
     if fmt in ("obj", "xyz") and extra != [] and extra != [0]:
-        ctx.label(f"file:{fmt}-vertex-record-extra-columns={'/'.join(map(str, extra))}")
+        ctx.label(f"{fmt}-vertex-record-extra-columns={'/'.join(map(str, extra))}")
     if fmt == "mesh" and case["var"].get("refs"):
-        ctx.label("file:medit-nonzero-refs")
+        ctx.label("medit-nonzero-refs")
     if fmt == "off" and any(k == "e" for k, _ in case["order"]):
-        ctx.label("file:off-edge-lines")
+        ctx.label("off-edge-lines")
     ctx.nontrivial(nk >= 2 or bool(extra and extra != [0]) or case["via"] != "load" or bool(case["var"].get("refs")))
 
     M.config.complete_edges_from_faces = bool(case["complete_edges"])
